@@ -53,6 +53,9 @@ package masswallet
 //@   modifies recInCurBlk, h.mempool, rollbacks(), gmap("iterkey")
 //@   expand db.View
 //@   dead returns 1
+// stepping stones for the lemma below (each source of prevTx yields a transaction without nil outputs)
+//@   at "if prevTx == nil { prevTx, err = h.walletMgr.chainFetcher.FetchTxBySha(..." assert prevTx == nil || outsWF(prevTx)
+//@   at "if prevTx == nil { fields := logging.LogFormat{..." assert prevTx == nil || outsWF(prevTx)
 //@   at "cache[txIn.PreviousOutPoint.Hash] = prevTx" assert outsWF(prevTx)
 //@   at "continue"#1 assert[C01] !has(recInCurBlk, strOf(txIn.PreviousOutPoint.Hash[:]))
 //@   loop#1 invariant recsWF(recInCurBlk)
@@ -195,3 +198,27 @@ package masswallet
 //@   at "return sInt + \".\" + sFrac, nil" assert[C15] alldigits(sInt) && len(sInt) >= 1 && (len(sInt) > 1 ==> sbyteAt(sInt, 0) != 48) && alldigits(sFrac) && len(sFrac) >= 1 && len(sFrac) <= 8 && sbyteAt(sFrac, len(sFrac) - 1) != 48
 //@   at "return sInt + \".\" + sFrac, nil" assert[C15] decval(sInt) * 100000000 + decval(sFrac) * pow10(8 - len(sFrac)) == mathint(m)
 //@   at "return sInt, nil" assert[C15] alldigits(sInt) && len(sInt) >= 1 && (len(sInt) > 1 ==> sbyteAt(sInt, 0) != 48) && decval(sInt) * 100000000 == mathint(m)
+
+// ---- C08: a removal is accepted only with the wallet's private passphrase, and only for a wallet that is ready
+// (not importing, not already being removed); nothing is queued or marked otherwise.
+//@ func (*NtfnsHandler).IsWorkerBusy
+//@   trusted
+//@   pure
+//@   requires h != nil
+//@ func (*WalletManager).RemoveWallet
+//@   props C08
+//@   nopanic off
+//@   requires w != nil && w.ksmgr != nil && w.ntfnsHandler != nil
+//@   modifies *
+//@   only CheckPrivPassphrase IsWorkerBusy
+//@   at "return w.ntfnsHandler.OnRemoveWallet(walletId)" assert[C08] ghostb("privPassOK", w.ksmgr, walletId, pass)
+//@ func (*NtfnsHandler).OnRemoveWallet
+//@   props C08
+//@   nopanic off
+//@   requires h != nil && h.walletMgr != nil
+//@   modifies *
+//@   only nothing
+//@   closure#1 nopanic off
+//@   closure#1 modifies *
+//@   closure#1 at "return h.walletMgr.syncStore.MarkDeleteWallet(wtx, walletId)" assert[C08] ws != nil && ws.SyncedHeight == txmgr.WalletSyncedDone
+//@   at "h.taskChan.PushRemove(walletId)" assert[C08] err == nil
